@@ -64,6 +64,7 @@ class Interproc:
         for comp in cg.sccs([bid for bid, b in facts.bodies.items() if b.kind in ("fn", "method", "closure")]):
             self.cyclic |= set(comp)
         self.compute_mod()
+        self.watch = None
         self.closure_checked = set()   # closure bodies whose exports were checked at a consuming call
 
     # ------------------------------------------------------------------ mod summaries
@@ -347,6 +348,7 @@ class Interproc:
                 self.analyse(cid)
         an = Analyzer(self.f, interproc=self)
         an.closure_seeds = self.an.closure_seeds
+        an.watch = self.watch
         res = an.analyze(b)
         absdom.MAX_PARAM = 0
         written = None
